@@ -196,7 +196,7 @@ func runC19(c *Ctx) {
 		_, keys := switchTag(c, f)
 		var H []string
 		for _, k := range keys {
-			H = append(H, `strings.ToUpper(param1) != "`+k+`"`)
+			H = append(H, verbTag(c)+` != "`+k+`"`)
 		}
 		H = append(H, `param1 != ""`)
 		c.obMustUnder("unknown command is a protocol error", f, []string{"call:(*Conn).protocolError"}, H...)
